@@ -15,15 +15,17 @@ from props import file_common, pipe_common
 
 def run(ctx: Ctx):
     quick = ctx.tier == "quick"
-    ctx.rule = ("generated CMAP sets (1-3 references, some with tandem repeats so that several loci compete; 12 queries "
+    ctx.rule = ("generated CMAP sets (1-3 references, some with tandem repeats so that several loci compete; 15 queries "
                 "of all kinds) run in the four output modes with 8 parameter vectors (peaksCount 1,2,3,5); per input "
                 "TLC judges all files together; candidates and seed peaks are recorded inside the worker by a harness "
                 "Extension. non-trivial = distinct (input, query) whose first-pass task had >= 2 candidates with pairs")
     ctx.assumptions = ["ties between equally confident candidates: any maximal candidate is accepted",
                        "written Confidence has 2 decimals: it must be within half a unit of the exact maximum"]
-    res, lines, out = file_common.explore(ctx, 16 if quick else 240, salt=5,
-                                          kinds=["split", "noisy", "split", "dropped", "indel", "chimeric", "mirror", "partial",
-                                                 "junk", "tiny", "exact", "stretched"])
+    # swapped / dup: two parts on one reference and strand whose join is refused; flankdup: two second-pass fragments of
+    # one query with exactly equal confidence; inversion: the two passes on opposite strands
+    res, lines, out = file_common.explore(ctx, 24 if quick else 240, salt=5, n_qry=15,
+                                          kinds=["split", "noisy", "swapped", "dropped", "indel", "chimeric", "mirror", "partial",
+                                                 "junk", "flankdup", "exact", "dup", "tiny", "stretched", "inversion"])
     seeds = []
     for rr, ln in zip(res, lines):
         if ln is None:
